@@ -210,11 +210,14 @@ def string_probes(vs, rng, cap=48):
 
 NAME_CONSUMERS = [("min", 0), ("max", 0)]        # only the names iterator has ordered items
 CONSUMERS = [("fold", 0), ("rfold", 0), ("last", 0), ("count", 0), ("collect", 0), ("rev_collect", 0),
-             ("for_each", 0), ("step_by", 2), ("skip", 1), ("take", 2), ("rev_skip", 1), ("step_by", 1), ("skip", 0)]
+             ("for_each", 0), ("step_by", 2), ("skip", 1), ("take", 2), ("rev_skip", 1), ("step_by", 1), ("skip", 0),
+             # adaptors that ordinary code rarely combines with these iterators; lengths seen through adaptors
+             ("rev_nth", 1), ("peek_collect", 0), ("max_by_key0", 0), ("min_by_key0", 0), ("partition", 0), ("rev_len", 0),
+             ("skip_len", 1), ("take_len", 2), ("step_by_len", 2), ("chain_hint", 0), ("zip_hint", 0), ("rev_nth", 0)]
 
 
 def op_line(op, k):
-    if op in ("nth", "nth_back", "find", "rfind", "take_count", "rev_take_count", "take_last"):
+    if op in ("nth", "nth_back", "find", "rfind", "take_count", "rev_take_count", "take_last", "position", "rposition", "dyn_nth", "dyn_nth_back"):
         return f"op {op} {'max' if k >= stimuli.BIG else k}"
     return f"op {op}"
 
@@ -438,7 +441,8 @@ def make_script(vs, r, probes_model, rng, level="std", str_cap=48, pairs_cap=36,
             for _ in range(rng.randint(8, 40)):
                 t = rng.random()
                 op = ("next", 0) if t < 0.3 else ("next_back", 0) if t < 0.6 else \
-                    (rng.choice(["nth", "nth_back", "find", "rfind", "take_count", "rev_take_count", "take_last"]), rng.choice([0, 1, 2, max(1, n // 4), n, stimuli.BIG]))
+                    (rng.choice(["nth", "nth_back", "find", "rfind", "take_count", "rev_take_count", "take_last", "position", "rposition", "dyn_nth", "dyn_nth_back"]),
+                     rng.choice([0, 1, 2, max(1, n // 4), n, stimuli.BIG]))
                 ops.append((rng.randrange(3), op[0], op[1]))
             news = (combos[j % len(combos)] + combos[(j + 2) % len(combos)])[:3]
             big_cons = [("count", 0), ("last", 0), ("count", 0)]
